@@ -17,8 +17,8 @@ import (
 // swallows a following field of the PARENT that happens to carry the same number.
 func init() {
 	register(&Rule{
-		Name: "MSGNARROW",
-		Doc: "W0 = protobuf functions containing a loop bounded only by the end of the buffer (`cursor.Read < len(cursor.Buf)`); W = W0 plus every function that can reach a call of a W function, handing over its cursor, on a path from its entry without cutting the buffer first (a store `cursor.Buf = …[lo:hi]`). Obligation: for every ReadLength() after which a call of a W function on that cursor is reachable, a narrowing store dominates the ReadLength or lies on every path from it to the call (exception: a function-local cursor over the receiver's own bytes whose length is read once, outside any loop — that is the framing of the value itself)",
+		Name:     "MSGNARROW",
+		Doc:      "W0 = protobuf functions containing a loop bounded only by the end of the buffer (`cursor.Read < len(cursor.Buf)`); W = W0 plus every function that can reach a call of a W function, handing over its cursor, on a path from its entry without cutting the buffer first (a store `cursor.Buf = …[lo:hi]`). Obligation: for every ReadLength() after which a call of a W function on that cursor is reachable, a narrowing store dominates the ReadLength or lies on every path from it to the call (exception: a function-local cursor over the receiver's own bytes whose length is read once, outside any loop — that is the framing of the value itself)",
 		Configs:  "NP",
 		Floor:    map[string]int{"N": 4, "P": 4},
 		Controls: 1,
